@@ -238,6 +238,10 @@ class MarkovChain:
                 )
             self._state_values = values
 
+        # Keep the labels of an already built digraph in sync
+        if getattr(self, '_digraph', None) is not None:
+            self._digraph.node_labels = self._state_values
+
     def get_index(self, value):
         """
         Return the index (or indices) of the given value (or values) in
